@@ -223,6 +223,38 @@ def gen_c10(r, tier, info):
     return cases
 
 
+# ---- C08 ---------------------------------------------------------------------------------------
+def gen_c08(r, tier, info):
+    """histories of safe calls of every kind, on every back end, incl. restore from arbitrary bytes with
+    every count class; the oracle is that no op ever outputs `panic` (catch_unwind per op)"""
+    sels = sels_for(info)
+    std = info.get("std") == "1"
+    cases = [gen.malformed(r, sels, count=c, force=True) for c in gen.COUNTS]
+    n = 40 if tier == "quick" else 600
+    for _ in range(n):
+        cases.append(gen.malformed(r, sels, force=True))
+        cases.append(gen.observers(r, sels, force=True))
+        cases.append(gen.adapters(r, sels, force=True, std=std))
+        cases.append(gen.default_case(r, sels, std=std))
+        cases.append(gen.interleave(r, sels, nh=3, force=True))
+        s = r.choice(sels)
+        cases += gen.grid(r, s, [r.randrange(32)], r.sample(gen.CHUNK_LENS, 3), force=True, entry="mix", std=std)
+    # extreme: all 32 fills x finalize at every width right after restore of an edge-lane checkpoint
+    for f in range(32):
+        lanes = gen.edge_lanes(r)
+        c = lanes + rbytes(r, 32) + f.to_bytes(4, "little")
+        b = B("c08-restore-fin", [f"fill={f}"])
+        for hi, s in enumerate(sels):
+            b.op(f"frestore {hi} {s} {hexbytes(c)}")
+            b.op(f"clone {hi} {hi + 8}")
+            b.op(f"clone {hi} {hi + 16}")
+            b.op(f"fin {hi} 64")
+            b.op(f"fin {hi + 8} 128")
+            b.op(f"fin {hi + 16} 256")
+        cases.append(b)
+    return cases
+
+
 def post_c10(bs, cases, reals, info):
     """the RELATION of the property on the observed tags: the tag every constructor reports must be a
     back end the configuration permits (evaluated by the Lean `Permitted`), portable when no SIMD
@@ -267,6 +299,8 @@ PROPS = {
     "C05": dict(gen=gen_c05, quick=["dev-std-base", "rel-nostd-avx2"], thorough=["dev-std-base", "rel-std-base", "rel-nostd-avx2", "dev-nostd-sse41"]),
     "C06": dict(gen=gen_c06, quick=["dev-std-base", "rel-std-base"], thorough=["dev-std-base", "rel-std-base", "rel-nostd-sse41", "dev-std-native"]),
     "C07": dict(gen=gen_c07, quick=["dev-std-base", "rel-nostd-base"], thorough=["dev-std-base", "rel-std-base", "rel-nostd-base", "dev-nostd-avx2", "rel-std-sse41noavx"]),
+    "C08": dict(gen=gen_c08, quick=["dev-std-base", "rel-std-base", "dev-nostd-avx2"],
+                thorough=["dev-std-base", "rel-std-base", "dev-nostd-avx2", "dev-nostd-sse41", "dev-std-native", "rel-nostd-base", "dev-nostd-base"]),
     "C10": dict(gen=gen_c10, quick=QUICK_CONFIGS, thorough=all_configs(), cpus=["none", "sse41", "avx2"], post=post_c10),
     "C11": dict(gen=gen_c11, quick=["dev-std-base", "rel-std-base"], thorough=["dev-std-base", "rel-std-base", "dev-nostd-sse41", "rel-nostd-avx2"]),
     "C12": dict(gen=gen_c12, quick=["dev-std-base", "rel-std-base"], thorough=["dev-std-base", "rel-std-base", "rel-nostd-base", "dev-std-avx2"]),
